@@ -69,6 +69,10 @@ def generate(seed, tier, index):
             pl["cgmap"] = list(range(ncell))
         ops.append(["fs_build", "trj", "trajectory", pl])
         objects["trj"] = "trajectory"
+        if rf.chance(0.5):
+            # a second, different trajectory (other requested times): saved next to the first one under a similar name
+            ops.append(["fs_build", "trj2", "trajectory", {"sidx": 1}])
+            objects["trj2"] = "trajectory"
     files = {}     # path -> object name (generator-side copy of M-fs, to draw loads)
     nfile = 0
     faults = set()
@@ -79,14 +83,15 @@ def generate(seed, tier, index):
             nm = rf.choice(sorted(objects))
             d = rf.choice(DIRS)
             nfile += 1
-            fn = "%s%d.json" % (nm, nfile)
+            fn = rf.choice(["%s%d.json", "%s.v%d.json", "%s.%d"]) % (nm.rstrip("2"), nfile)   # names with extra dots too
             path = (d + "/" + fn) if d else fn
             opts = {"abs": rf.chance(0.3)}
             if objects[nm] == "trajectory":
                 opts["separate"] = rf.chance(0.6)
                 faults.add("trajectory_separate_data" if opts["separate"] else "trajectory_inline_data")
             ops.append(["fs_save", nm, path, opts])
-            files[path] = nm
+            # (save_rdtrajectory appends the documented ".json" suffix when it is absent)
+            files[path if (objects[nm] != "trajectory" or path.endswith(".json")) else path + ".json"] = nm
             faults.add("save_abs" if opts["abs"] else "save_rel")
         elif c == "load" and files:
             path = rf.choice(sorted(files))
@@ -139,13 +144,30 @@ def generate(seed, tier, index):
             faults.add("tree_" + c)
         elif c == "phys":
             ops.append(["fs_phys", rf.choice(sorted(objects))])
+    if "trj2" in objects and rf.chance(0.7):
+        # two different trajectories saved side by side under names that differ only after a dot, data in external files
+        d = rf.choice(DIRS)
+        pa = ((d + "/") if d else "") + "run.k0.25"
+        pb = ((d + "/") if d else "") + "run.k0.5"
+        ops.append(["fs_save", "trj", pa, {"abs": rf.chance(0.3), "separate": True}])
+        ops.append(["fs_save", "trj2", pb, {"abs": rf.chance(0.3), "separate": True}])
+        files[pa + ".json"] = "trj"
+        files[pb + ".json"] = "trj2"
+        ops.append(["fs_load", "ld%d" % len(ops), "trajectory", pa + ".json", {"abs": rf.chance(0.3)}])
+        faults.add("sibling_trajectory_files")
     # make sure something is loaded back
     for path in rf.sample(sorted(files), min(2, len(files))):
         ops.append(["fs_chdir", rf.choice(["", "c"])])
         ops.append(["fs_load", "ld%d" % len(ops), objects[files[path]], path, {"abs": rf.chance(0.3)}])
     eps = [{"obj": 0, "kind": kind, "via": "LibRDEngine", "script": 0, "ops": ops}]
+    import copy
+    entry2 = copy.deepcopy(entry)
+    sp2 = entry2["phys"]["sp"]
+    sp2["t_sample"] = sorted(set([0.0] + [t * 0.5 for t in sp2["t_sample"]] + [sp2["dt"] * 1.5]))
+    sp2["seed"] = rf.bits(31)
+    entry2["script"] = gen.render_script(Stream(ID, seed, tier, index, "s2"), sp2, entry2["phys"]["us"], rich=False)
     return {"format": 1, "property": ID, "seed": seed, "tier": tier, "index": index, "build": "plain", "sandbox": True,
-            "scripts": [entry], "lifetimes": [{"pyseed": rf.bits(30), "episodes": eps}],
+            "scripts": [entry, entry2], "lifetimes": [{"pyseed": rf.bits(30), "episodes": eps}],
             "meta": {"kind": kind, "faults": sorted(faults), "objects": objects}}
 
 
@@ -179,6 +201,18 @@ def check(case, results):
             continue
         if name == "fs_build":
             built[op[1]] = ev["phys"]
+            if op[2] in ("system", "script"):
+                mm = Model(case["scripts"][0]["phys"]["spec"])
+                psys = ev["phys"] if op[2] == "system" else ev["phys"]["system"]
+                want = [float(x) for x in mm.x0.ravel()]
+                got = psys["state"][0]
+                if len(got) != len(want) or any(abs(a - b) > 1e-12 * max(abs(a), abs(b)) for a, b in zip(got, want)):
+                    viol.append(dict(ctx, oracle="C12.object-matches-description", op=oi,
+                                     detail="the state of the %s built from the description is %s molecules, the description says %s"
+                                            % (op[2], got[:6], want[:6])))
+                elif list(psys["chemostats"]) != [int(c) for c in mm.chem.ravel()]:
+                    viol.append(dict(ctx, oracle="C12.object-matches-description", op=oi,
+                                     detail="the chemostat map of the %s built from the description differs from it" % op[2]))
             if op[2] == "script":
                 # the object the round trips start from must itself say what the description says (sample times in SI etc.)
                 sp = case["scripts"][0]["phys"]["sp"]
@@ -202,7 +236,10 @@ def check(case, results):
                 viol.append(dict(ctx, oracle="C12.save-does-not-modify", op=oi,
                                  detail="object '%s' changed after being saved/serialised: %s" % (op[1], "; ".join(d))))
         elif name in ("fs_save", "fs_split"):
-            files[op[2]] = op[1]
+            pth = op[2]
+            if name == "fs_save" and case["meta"]["objects"].get(op[1]) == "trajectory" and not pth.endswith(".json"):
+                pth += ".json"
+            files[pth] = op[1]
         elif name in ("fs_move", "fs_copy"):
             src, dst = op[1], op[2]
             nf = {}
